@@ -1007,8 +1007,10 @@ _vbi_export_grow_buffer_space	(vbi_export *		e,
 			goto failed;
 
 		/* Carry over the old data because the output may
-		   fit after all. */
-		memcpy (e->buffer.data, old_data, e->buffer.offset);
+		   fit after all. (old_data can be NULL when offset
+		   is zero.) */
+		if (e->buffer.offset > 0)
+			memcpy (e->buffer.data, old_data, e->buffer.offset);
 
 		return TRUE;
 	} else {
@@ -1259,7 +1261,8 @@ vbi_export_write		(vbi_export *		e,
 	}
 
 	offset = e->buffer.offset;
-	memcpy (e->buffer.data + offset, src, src_size);
+	if (src_size > 0) /* buffer.data can be NULL */
+		memcpy (e->buffer.data + offset, src, src_size);
 	e->buffer.offset = offset + src_size;
 
 	return TRUE;
@@ -1612,8 +1615,9 @@ vbi_export_mem			(vbi_export *		e,
 
 			/* Or was it? We may have started to write into
 			   @a buffer, so let's finish that in any case. */
-			memcpy (buffer, e->buffer.data,
-				MIN (e->buffer.offset, buffer_size));
+			if (buffer_size > 0) /* buffer can be NULL */
+				memcpy (buffer, e->buffer.data,
+					MIN (e->buffer.offset, buffer_size));
 
 			free (e->buffer.data);
 		}
